@@ -121,7 +121,10 @@ class ReconcileMonitor(Monitor):
         for market, o in local_orders(fw):
             live = o in market.blotter._live_orders
             if o.complete and live and final:
-                self.violate(self.P, "C11.live-list", "complete-order-still-in-live-list", order=o._vid, status=o.status.name)
+                site = "complete-order-still-in-live-list"
+                if o.bet_id is None and o.status.name == "EXECUTION_COMPLETE":
+                    site = "failed-placement-never-leaves-live-list"
+                self.violate(self.P, "C11.live-list", site, order=o._vid, status=o.status.name, status_log=[x.name for x in o.status_log])
             if not o.complete and not live:
                 self.violate(self.P, "C11.live-list", "incomplete-order-not-in-live-list", order=o._vid, status=o.status.name if o.status else None)
         seen_t = set()
